@@ -77,14 +77,30 @@ pub fn build_input(case: &Value) -> Vec<u8> {
 /// Region layout over the built input.
 ///   [{"start": addr, "off": o, "len": l, "fail": bool, "described": n?}]
 /// Each region exposes input[o..o+l] (clipped) at address `start`.
+/// `bytes` copied into a fresh buffer so that the first byte sits at an address congruent to `shift` modulo 16:
+/// returns the buffer and the offset of the first byte in it.  (Scanning the same bytes at different alignments must
+/// give the same module values.)
+pub fn place(bytes: &[u8], shift: usize) -> (Vec<u8>, usize) {
+    let mut v = vec![0u8; bytes.len() + 32];
+    let base = v.as_ptr() as usize;
+    let pad = (16 - base % 16) % 16 + (shift % 16);
+    v[pad..pad + bytes.len()].copy_from_slice(bytes);
+    (v, pad)
+}
+
 #[derive(Debug)]
 pub struct Layout {
-    pub regions: Vec<(usize, Vec<u8>, bool, Option<usize>)>,
+    // start, buffer, offset of the region bytes in the buffer, length, fetch fails, described length override
+    pub regions: Vec<(usize, Vec<u8>, usize, usize, bool, Option<usize>)>,
     pub cur: Option<usize>,
 }
 
 impl Layout {
     pub fn new(input: &[u8], layout: &Value) -> Self {
+        Self::with_shift(input, layout, 0)
+    }
+
+    pub fn with_shift(input: &[u8], layout: &Value, shift: usize) -> Self {
         let regions = layout
             .as_array()
             .unwrap()
@@ -92,12 +108,8 @@ impl Layout {
             .map(|r| {
                 let o = get_usize(r, "off").min(input.len());
                 let l = get_usize(r, "len").min(input.len() - o);
-                (
-                    get_usize(r, "start"),
-                    input[o..o + l].to_vec(),
-                    get_bool(r, "fail"),
-                    get_opt_usize(r, "described"),
-                )
+                let (buf, pad) = place(&input[o..o + l], shift);
+                (get_usize(r, "start"), buf, pad, l, get_bool(r, "fail"), get_opt_usize(r, "described"))
             })
             .collect();
         Self { regions, cur: None }
@@ -113,15 +125,15 @@ impl FragmentedMemory for Layout {
         self.cur = Some(n);
         self.regions.get(n).map(|r| RegionDescription {
             start: r.0,
-            length: r.3.unwrap_or(r.1.len()),
+            length: r.5.unwrap_or(r.3),
         })
     }
     fn fetch(&mut self, _params: &MemoryParams) -> Option<Region<'_>> {
         let r = self.regions.get(self.cur?)?;
-        if r.2 {
+        if r.4 {
             return None;
         }
-        Some(Region { start: r.0, mem: &r.1 })
+        Some(Region { start: r.0, mem: &r.1[r.2..r.2 + r.3] })
     }
     fn reset(&mut self) {
         self.cur = None;
